@@ -18,7 +18,7 @@ for pid in ids:
             evidence_file="/verif/evidence/%s.json" % pid,
             replay_cmd_template="./check %s --replay {path}" % pid,
             engine=t.get("engine", "verus"),
-            level_claimed=dict(category="proof", text=t["level"], design_ref=t.get("design_ref", "DESIGN.md section 5 %s" % pid)),
+            level_claimed=dict(category=registry.PROPS[pid].get("level", "proof"), text=t["level"], design_ref=t.get("design_ref", "DESIGN.md section 5 %s" % pid)),
             level_note=t["note"],
             technique=t["technique"],
         ))
